@@ -255,6 +255,15 @@ func (c *client) String() string {
 func (c *client) inFlightUp() error {
 	c.inFlightM.Lock()
 	c.inFlight++
+	if c.inFlight == 0 {
+		// The response to this request has already been received and counted
+		// (inFlightDown ran before us and wrapped the counter), so nothing is
+		// outstanding: make sure no read deadline is left armed on an idle
+		// connection instead of arming one.
+		err := c.conn.SetReadDeadline(time.Time{})
+		c.inFlightM.Unlock()
+		return err
+	}
 	// we expect that at least the last request can be completed within readTimeout
 	if err := c.conn.SetReadDeadline(time.Now().Add(c.readTimeout)); err != nil {
 		c.inFlightM.Unlock()
